@@ -241,23 +241,29 @@ theorem C19_stream (dev : Dev) (evs : List Event) :
         · have hp' : isPoll m0 = false := by simpa using hp
           simp [run, process_eq, processHand, hs', hp']
 
+/-- every target the request names (the prefix target, else the entries' own) has a connection. -/
+def namedConnected (dev : Dev) (l : SubList) : Bool :=
+  if getTarget l.pfx ≠ [] then (devLookup dev (getTarget l.pfx)).isSome
+  else l.subs.all (fun s => (devLookup dev (subTarget s)).isSome)
+
 /-- Forwarding (the part that holds): when every entry names a target (or the prefix does) and
     every named target is connected, an accepted subscription forwards every entry to the target
     it names. -/
 theorem C19_forward_all_partial (dev : Dev) (top : Fields) (l : SubList)
     (ho : optsOK l.opts = true) (ht : topOK top = true)
     (hall : getTarget l.pfx ≠ [] ∨ l.subs.all (fun s => subTarget s != []) = true)
-    (hconn : ∀ t, (devLookup dev t).isSome = true)
+    (hconn : namedConnected dev l = true)
     (st' : SState) (outs : List Out)
     (h : process dev {} { body := .subscribe l, top := top } = (st', outs, none)) :
     ∀ s ∈ l.subs, ∃ r, Out.subscribed (if getTarget l.pfx ≠ [] then getTarget l.pfx else subTarget s) r ∈ outs ∧
       s ∈ reqSubs r := by
   intro s hsm
-  have hfw : ∀ t r, (reqPrefix r).isSome = true → Out.subscribed t r ∈ forward dev (t, r) := by
-    intro t r hpr
+  have hfw : ∀ t r, (devLookup dev t).isSome = true → (reqPrefix r).isSome = true →
+      Out.subscribed t r ∈ forward dev (t, r) := by
+    intro t r hc hpr
     rw [C19_relay_identity dev t r hpr]
     cases hd : devLookup dev t with
-    | none => have := hconn t; simp [hd] at this
+    | none => simp [hd] at hc
     | some msgs => simp
   have hproc : process dev {} { body := .subscribe l, top := top } =
       match split { body := .subscribe l, top := top } with
@@ -272,6 +278,9 @@ theorem C19_forward_all_partial (dev : Dev) (top : Fields) (l : SubList)
       rcases hall with h1 | h1
       · exact absurd hp h1
       · exact h1
+    have hcs : (devLookup dev (subTarget s)).isSome = true := by
+      simp only [namedConnected, hp, ne_eq, not_true_eq_false, if_false] at hconn
+      exact List.all_eq_true.mp hconn s hsm
     simp only [hp, ne_eq, not_true_eq_false, if_false] at h
     by_cases hn : targetsOf l.subs = []
     · simp [hn] at h
@@ -285,13 +294,15 @@ theorem C19_forward_all_partial (dev : Dev) (top : Fields) (l : SubList)
       obtain ⟨_, _, hr⟩ := (hex _ r).mp hm
       refine ⟨r, ?_, hsr⟩
       simp only [hp, ne_eq, not_true_eq_false, if_false, houts, List.mem_flatMap]
-      exact ⟨(subTarget s, r), hm, hfw _ r (by rw [hr]; rfl)⟩
-  · simp only [hp, ne_eq, not_false_eq_true, if_true, Prod.mk.injEq] at h
+      exact ⟨(subTarget s, r), hm, hfw _ r hcs (by rw [hr]; rfl)⟩
+  · have hcp : (devLookup dev (getTarget l.pfx)).isSome = true := by
+      simpa [namedConnected, hp] using hconn
+    simp only [hp, ne_eq, not_false_eq_true, if_true, Prod.mk.injEq] at h
     have houts : outs = forward dev (getTarget l.pfx, { body := .subscribe l, top := top }) := by
       have := h.2.1; simpa using this.symm
     refine ⟨{ body := .subscribe l, top := top }, ?_, hsm⟩
     simp only [hp, ne_eq, not_false_eq_true, if_true, houts]
-    apply hfw
+    apply hfw _ _ hcp
     cases hpf : l.pfx with
     | none => simp [getTarget, hpf] at hp
     | some f => simp [reqPrefix, hpf]
@@ -321,6 +332,6 @@ example : getTarget (some witnessT1) ≠ [] := by decide
 example : isSub { body := .subscribe sampleList, top := sampleTop } = true ∧ isPoll { body := .poll, top := [] } = true := by decide
 example : (run sampleDev {} [.msg { body := .subscribe sampleList, top := sampleTop }, .msg { body := .poll, top := [] },
     .msg { body := .poll, top := [] }, .eof]).1.length = 2 + 1 + 2 + 2 := by decide
-example : ∀ t ∈ ["t1".toList, "t2".toList], (devLookup sampleDev t).isSome = true := by decide
+example : namedConnected sampleDev sampleList = true := by decide
 
 end OnosVerif.Props.C19
